@@ -8,8 +8,8 @@ ASSUMPTIONS = [
     "back edges and shared subdirectories; optionally a second node object for the same storage object (same verify cap) linked next to it; 40-node graphs are outside the claim",
     "directory nodes are real DirectoryNode instances whose list() returns an already-fired Deferred (no mutable-file retrieval, no ConcurrencyLimiter, no turn breaks: "
     "fireEventually is only used after 100 files in one directory); DeepChecker (check/repair per node) is not driven",
-    "'exactly once' is claimed for objects that have a verify cap (directories, CHK and mutable files); literal files and unknown caps have none: as the code documents, they are "
-    "reported once per link from a visited directory",
+    "'exactly once' is claimed for objects that have a verify cap (directories, CHK and mutable files); literal files, literal (DIR2-LIT) directories and unknown caps have none: as "
+    "the code documents, they are reported (and literal directories descended into) once per link from a visited directory; literal directories hold immutable files only",
 ]
 T = {"quick": 150, "thorough": 1200}
 
@@ -25,10 +25,12 @@ OBLIGATIONS = [
     chx("traverse", "C21_h", "h_traverse", timeout=T,
         cases={"quick": [_c("DDD_rec", "DDD", walkers=[0]), _c("DDC_stats", "DDC", walkers=[1, 2]),
                          _c("DDC_alias", "DDC", alias_pairs=[(0, 2), (1, 1)], walkers=[0]), _c("DML", "DML", alias_pairs=[(0, 1)]),
-                         _c("DDU", "DDU", alias_pairs=[(1, 0)], walkers=[0]), _c("DDL_stats", "DDL", walkers=[1, 2])],
+                         _c("DDU", "DDU", alias_pairs=[(1, 0)], walkers=[0]), _c("DDL_stats", "DDL", walkers=[1, 2]),
+                         _c("DEC_litdir", "DEC"), _c("DEL_litdir", "DEL", walkers=[0, 1])],
                "thorough": [_c("DDD_all", "DDD"), _c("DDDC_rec", "DDDC", walkers=[0]),
                             _c("DDC_alias", "DDC", alias_pairs=[(0, 2), (1, 1), (1, 0)]), _c("DDCL", "DDCL", alias_pairs=[(1, 2)]),
-                            _c("DDMU", "DDMU", alias_pairs=[(1, 0)]), _c("DCML", "DCML", alias_pairs=[(0, 1), (0, 2)])]},
+                            _c("DDMU", "DDMU", alias_pairs=[(1, 0)]), _c("DCML", "DCML", alias_pairs=[(0, 1), (0, 2)]),
+                            _c("DDEC_litdir", "DDEC"), _c("DECL_litdir", "DECL")]},
         desc="deep_traverse with a recording walker, build_manifest (ManifestWalker) and start_deep_stats (DeepStats) on every graph over the case's objects: the traversal finishes "
              "(cycles terminate); every reachable object with a verify cap is reported exactly once and no unreachable one; each directory is listed and entered exactly once; every "
              "reported path resolves, name by name from the root, to the reported node; the root comes first with the empty path; manifest entries/verifycaps/storage-index sets and the "
